@@ -3,6 +3,8 @@ import Yarel.Drv.Intern
 import Yarel.Drv.Gc
 import Yarel.Drv.Pace
 import Yarel.Drv.Upv
+import Yarel.Drv.Map
+import Yarel.Drv.Str
 
 def main (args : List String) : IO UInt32 := do
   match args with
@@ -10,6 +12,8 @@ def main (args : List String) : IO UInt32 := do
   | "gc" :: rest => do Yarel.Drv.Gc.run rest; return 0
   | "pace" :: rest => do Yarel.Drv.Pace.run rest; return 0
   | "upv" :: rest => do Yarel.Drv.Upv.run rest; return 0
+  | "map" :: rest => do Yarel.Drv.Map.run rest; return 0
+  | "str" :: rest => do Yarel.Drv.Str.run rest; return 0
   | _ => do
     IO.eprintln "usage: yarel_model <family> [args]"
     return 2
